@@ -59,7 +59,7 @@ def make_extra(prop, cfgs=("fe64",)):
                 res["solver_s"] += r.get("solver_s", 0) or 0
                 sample = dict(harness=name, engine="mirsym (MIR -> polynomial Int domain -> z3 %s)" % d.get("z3", ""), desc=r.get("desc"), status=r["status"],
                               obligations=n, proved=npv, atoms=r.get("atoms"), quotient_atoms=r.get("quot_atoms"), abstracted_monomials=r.get("monomials"),
-                              solver_s=r.get("solver_s"), wall_s=r.get("wall_s"), functions_encoded=r.get("functions"), mir_blocks_executed=r.get("blocks"))
+                              solver_s=r.get("solver_s"), wall_s=r.get("wall_s"), second_solver=r.get("second_solver"), functions_encoded=r.get("functions"), mir_blocks_executed=r.get("blocks"))
                 if r["status"] == "holds":
                     res["distinct_nontrivial"] += 1
                     sample["verdict"] = "holds"
